@@ -387,8 +387,10 @@ def gen_sim(rng, tier, algo=None, sort=None, est=None, unint=None, inc=None):
                 ramp=(1.0, 1.0, 1.0) if rng.random() < 0.7 else (0.5, 2.0, 0.5))
 
 
-def run_sim(sim, capture=True):
-    """run the real Simulator; returns dict(calls=[unit scenarios], warnings, exception, energies)"""
+def run_sim(sim, capture=True, reuse=None):
+    """run the real Simulator; returns dict(calls=[(unit scenario, in-simulator record)], warnings, exception, energies,
+    handle).  Every scheduler invocation is recorded as it happened INSIDE the simulation (the algorithm object lives
+    across all periods); `reuse=handle` runs this simulation with the algorithm object of a previous one."""
     from acnportal.acnsim import Simulator, ChargingNetwork, Current
     from acnportal.acnsim.models import EV, EVSE, FiniteRatesEVSE, Battery, Linear2StageBattery
     from acnportal.acnsim.events import EventQueue, PluginEvent
@@ -408,47 +410,62 @@ def run_sim(sim, capture=True):
         evs.append(EV(e["arr"], e["dep"], e["req"], sc.station_name(e["st"]), sc.session_name(e["sid"]), b,
                       estimated_departure=e["edep"]))
     queue = EventQueue([PluginEvent(e.arrival, e) for e in evs])
-    est = alg.SimpleRampdown(*sim["ramp"]) if sim["est"] else None
-    kw = dict(estimate_max_rate=sim["est"], max_rate_estimator=est, uninterrupted_charging=sim["unint"])
-    if sim["algo"] == "rr":
-        algo = alg.RoundRobin(sc.sort_fn(sim["sort"]), continuous_inc=sim["inc"], **kw)
+    if reuse is not None:
+        algo, est, obs, ctx = reuse
     else:
-        algo = alg.SortedSchedulingAlgo(sc.sort_fn(sim["sort"]), **kw)
-    calls = []
-    orig_schedule = algo.schedule
+        est = alg.SimpleRampdown(*sim["ramp"]) if (sim["est"] and sim["algo"] != "unc") else None
+        kw = dict(estimate_max_rate=est is not None, max_rate_estimator=est, uninterrupted_charging=sim["unint"])
+        if sim["algo"] == "rr":
+            algo = alg.RoundRobin(sc.sort_fn(sim["sort"]), continuous_inc=sim["inc"], **kw)
+        elif sim["algo"] == "unc":
+            algo = alg.UncontrolledCharging()
+        else:
+            algo = alg.SortedSchedulingAlgo(sc.sort_fn(sim["sort"]), **kw)
+        obs = sc.Observed(algo, est, sim["algo"])
+        ctx = {}
+        orig_schedule = algo.schedule
 
-    def schedule(active_sessions):
-        iface = algo.interface
-        snap = None
-        if capture:
-            info = iface.infrastructure_info()
-            N = len(info.station_ids)
-            idx = {n: k for k, n in enumerate(info.station_ids)}
-            etype = ["C0" if s["kind"] == "C0" else "F" for s in sim["stations"]]
-            infra = dict(N=N, A=[[float(x) for x in row] for row in np.asarray(info.constraint_matrix)],
-                         L=[float(x) for x in info.constraint_limits], phases=[float(x) for x in info.phases],
-                         volt=[float(x) for x in info.voltages], maxp=[float(x) for x in info.max_pilot],
-                         minp=[float(x) for x in info.min_pilot],
-                         allow=[[float(x) for x in a] for a in info.allowable_pilots],
-                         cont=[bool(x) for x in info.is_continuous], etype=etype)
-            sess = [dict(st=idx[s.station_id], sid=sc.sid_of(s.session_id), req=float(s.requested_energy),
-                         deliv=float(s.energy_delivered), arr=int(s.arrival), dep=int(s.departure),
-                         edep=int(s.estimated_departure), mins=[float(x) for x in s.min_rates],
-                         maxs=[float(x) for x in s.max_rates]) for s in active_sessions]
-            e = None
-            if est is not None:
-                e = dict(up_thr=est.up_threshold, down_thr=est.down_threshold, up_inc=est.up_increment,
-                         store={sc.sid_of(k): float(v) for k, v in est.upper_bounds.items()},
-                         prev_pilot={sc.sid_of(k): float(v) for k, v in iface.last_applied_pilot_signals.items()},
-                         prev_rate={sc.sid_of(k): float(v) for k, v in iface.last_actual_charging_rate.items()})
-            snap = dict(infra=infra, period=float(iface.period), now=int(iface.current_time), sessions=sess,
-                        algo=sim["algo"], sort=sim["sort"], est=e, unint=sim["unint"], inc=sim["inc"])
-        out = orig_schedule(active_sessions)
-        if snap is not None:
-            snap_out = [float(out[sc.station_name(k)][0]) for k in range(snap["infra"]["N"])]
-            calls.append((snap, snap_out))
-        return out
-    algo.schedule = schedule
+        def schedule(active_sessions):
+            iface = algo.interface
+            sim_ = ctx["sim"]
+            snap = None
+            if ctx["capture"]:
+                info = iface.infrastructure_info()
+                N = len(info.station_ids)
+                idx = {n: k for k, n in enumerate(info.station_ids)}
+                etype = ["C0" if s["kind"] == "C0" else "F" for s in sim_["stations"]]
+                infra = dict(N=N, A=[[float(x) for x in row] for row in np.asarray(info.constraint_matrix)],
+                             L=[float(x) for x in info.constraint_limits], phases=[float(x) for x in info.phases],
+                             volt=[float(x) for x in info.voltages], maxp=[float(x) for x in info.max_pilot],
+                             minp=[float(x) for x in info.min_pilot],
+                             allow=[[float(x) for x in a] for a in info.allowable_pilots],
+                             cont=[bool(x) for x in info.is_continuous], etype=etype)
+                sess = [dict(st=idx[s.station_id], sid=sc.sid_of(s.session_id), req=float(s.requested_energy),
+                             deliv=float(s.energy_delivered), arr=int(s.arrival), dep=int(s.departure),
+                             edep=int(s.estimated_departure), mins=[float(x) for x in s.min_rates],
+                             maxs=[float(x) for x in s.max_rates]) for s in active_sessions]
+                e = None
+                if est is not None:
+                    e = dict(up_thr=est.up_threshold, down_thr=est.down_threshold, up_inc=est.up_increment,
+                             store={sc.sid_of(k): float(v) for k, v in est.upper_bounds.items()},
+                             prev_pilot={sc.sid_of(k): float(v) for k, v in iface.last_applied_pilot_signals.items()},
+                             prev_rate={sc.sid_of(k): float(v) for k, v in iface.last_actual_charging_rate.items()})
+                snap = dict(infra=infra, period=float(iface.period), now=int(iface.current_time), sessions=sess,
+                            algo=sim_["algo"], sort=sim_["sort"], est=e, unint=sim_["unint"], inc=sim_["inc"])
+            obs.begin()
+            out, err = None, None
+            try:
+                out = orig_schedule(active_sessions)
+                return out
+            except Exception as ex:  # noqa
+                err = type(ex).__name__
+                raise
+            finally:
+                rec = obs.end(out, err, len(sim_["stations"]))
+                if snap is not None:
+                    ctx["calls"].append((snap, rec))
+        algo.schedule = schedule
+    ctx["sim"], ctx["capture"], ctx["calls"] = sim, capture, []
     sim_obj = Simulator(net, algo, queue, datetime.datetime(2020, 1, 1), period=sim["period"], verbose=False)
     exc = None
     with warnings.catch_warnings(record=True) as w:
@@ -459,7 +476,60 @@ def run_sim(sim, capture=True):
             exc = "%s: %s" % (type(e).__name__, str(e)[:200])
     warns = [str(x.message)[:160] for x in w if "Invalid schedule" in str(x.message)]
     energies = [(e.session_id, float(e.energy_delivered), float(e.requested_energy)) for e in evs]
-    return dict(calls=calls, warnings=warns, exception=exc, energies=energies)
+    return dict(calls=ctx["calls"], warnings=warns, exception=exc, energies=energies, handle=(algo, est, obs, ctx))
+
+
+def gen_sim_flip(rng, tier, algo=None, sort=None):
+    """two or three EVs behind one binding breaker, plugged in for the whole horizon; under LLF / LRPT the priority order
+    flips after a few periods while the set of active sessions stays the same"""
+    N = rng.choice([2, 2, 3])
+    finite = rng.random() < 0.4
+    mp = float(rng.choice([32, 32, 16]))
+    st = []
+    for i in range(N):
+        if finite:
+            st.append(dict(kind="F", maxp=mp, rates=[float(x) for x in range(8, int(mp) + 1, 8)]))
+        else:
+            st.append(dict(kind="C0", maxp=mp, rates=None))
+        st[-1]["volt"] = 208.0
+        st[-1]["phase"] = 0.0
+    period = float(rng.choice([5, 15]))
+    lim = float(rng.choice([mp, mp + 8, round(mp * rng.uniform(0.7, 1.3), 1)]))
+    cons = [dict(row={i: 1.0 for i in range(N)}, limit=lim)]
+    horizon = 14
+    per_amp = 208.0 * period / 60.0 / 1000.0
+    base = rng.uniform(4.0, 6.5)
+    evs = []
+    sort = sort or rng.choice(["llf", "lrpt"])
+    for i in range(N):
+        d = rng.uniform(0.5, 2.5) * i
+        edep = horizon + 2 * i
+        rpt = ((edep - 1) - ((horizon - 1) - base + d)) if sort == "llf" else (base - d)
+        rpt = max(rpt, 1.5)
+        req = round(rpt * mp * per_amp, 4)
+        evs.append(dict(arr=rng.choice([0, 0, 1]), dep=horizon, edep=edep, req=float(req), st=i, sid=300 + i,
+                        batt="ideal", cap=float(req + 50), maxpow=100.0))
+    return dict(stations=st, cons=cons, period=period, evs=evs, algo=algo or rng.choice(["greedy", "greedy", "rr"]),
+                sort=sort, est=False, unint=rng.random() < 0.2, inc=rng.choice([0.5, 1.0]), ramp=(1.0, 1.0, 1.0))
+
+
+def rerated(rng, sim):
+    """the same station ids on another site: other ratings / voltages / phases / limits"""
+    import copy
+    s2 = copy.deepcopy(sim)
+    for st in s2["stations"]:
+        if st["kind"] == "C0":
+            st["maxp"] = float(rng.choice([16, 24, 40, 64]))
+        else:
+            st["rates"] = [r for r in rng.choice(sc.FINITE_SETS[:6]) if r > 0]
+            st["maxp"] = max(st["rates"])
+        st["volt"] = float(rng.choice([208, 240, 120]))
+        st["phase"] = float(rng.choice([0.0, 120.0, -120.0]))
+    for c in s2["cons"]:
+        c["limit"] = float(round(c["limit"] * rng.uniform(0.5, 1.5), 1))
+    for e in s2["evs"]:
+        e["sid"] += 500
+    return s2
 
 
 def sim_violation(res):
@@ -473,34 +543,44 @@ def sim_violation(res):
     return None
 
 
-def sim_stream(rng, n_sims, n_calls, tier, mk_case):
-    """run n_sims real simulations; every scheduler invocation is a candidate unit case (sampled down to n_calls).
-    A violating simulation is returned as one extra case carrying `sim_violation` and the simulation itself."""
+def sim_stream(rng, n_sims, n_calls, tier, mk_case, with_unc=False):
+    """run n_sims real simulations (a third of them the LLF/LRPT flip family; every fourth scheduler object is reused on a
+    second, re-rated network with the same station ids).  EVERY scheduler invocation is a candidate case carrying what the
+    algorithm returned inside the simulation (sampled down to n_calls); a violating simulation is an extra case."""
     cases, pool = [], []
     combos = [(a, s, e, u, i) for a in ("greedy", "rr") for s in sc.SORTS for e in (False, True) for u in (False, True)
-              for i in ((0.5, 1.0) if a == "rr" else (0.5,))]
+              for i in ((0.5, 1.0) if a == "rr" else (0.5, 0.5))]
     rng.shuffle(combos)
-    for k in range(n_sims):
-        a, s, e, u, i = combos[k % len(combos)]
-        sim = gen_sim(rng, tier, a, s, e, u, i)
-        res = run_sim(sim)
+
+    def one(sim, reuse=None):
+        res = run_sim(sim, reuse=reuse)
         v = sim_violation(res)
         if v:
             cases.append(dict(input=dict(sim=sim), impl=dict(warnings=res["warnings"], exception=res["exception"],
                                                              energies=res["energies"]),
                               coq=None, ambiguous=True, kind="sim-violation", sig=repr(sim), nontrivial=True,
                               sim_violation=v))
-        for snap, out in res["calls"]:
-            pool.append((snap, out, k))
-    rng.shuffle(pool)
-    for snap, out, k in pool[:n_calls]:
-        c = mk_case(snap, "sim")
-        # the re-execution through the stub must reproduce what the scheduler returned inside the simulator
-        if c["impl"]["sched"] is None or any(abs(x - y) > 1e-9 * max(1, abs(x)) for x, y in zip(c["impl"]["sched"], out)):
-            c["sim_violation"] = None
-            c["replay_mismatch"] = True
-            c["sim_out"] = out
-        cases.append(c)
+        for snap, rec in res["calls"]:
+            pool.append((snap, rec))
+        return res
+    for k in range(n_sims):
+        a, s, e, u, i = combos[k % len(combos)]
+        if with_unc and k % 5 == 4:
+            sim = gen_sim(rng, tier, "unc", s, False, False, i)
+        elif k % 3 == 1:
+            sim = gen_sim_flip(rng, tier, algo=a, sort=s if s in ("llf", "lrpt") else None)
+        else:
+            sim = gen_sim(rng, tier, a, s, e, u, i)
+        res = one(sim)
+        if k % 4 == 3 or sim["algo"] == "unc":
+            one(rerated(rng, sim), reuse=res["handle"])          # the SAME scheduler object on another network
+    # keep consecutive calls together: sample whole-simulation runs of calls until the budget is used
+    keep = pool if len(pool) <= n_calls else None
+    if keep is None:
+        idx = sorted(rng.sample(range(len(pool)), n_calls))
+        keep = [pool[j] for j in idx]
+    for snap, rec in keep:
+        cases.append(mk_case(snap, "sim", impl=rec))
     return cases
 
 
